@@ -190,13 +190,15 @@ func (l *localFS) Put(ctx context.Context, key string, source io.Reader, exclusi
 					zap.Error(err),
 				)
 			}
-			err = target.Close()
-			if err != nil {
+			if e := target.Close(); e != nil {
 				l.l.Error("write error, retrying",
 					zap.String("key", key),
-					zap.Error(err),
+					zap.Error(e),
 				)
-
+				if err == nil {
+					// do not mask a write error by the outcome of Close
+					err = e
+				}
 			}
 
 			return err
@@ -220,12 +222,15 @@ func (l *localFS) Put(ctx context.Context, key string, source io.Reader, exclusi
 				)
 			}
 
-			err = target.Close()
-			if err != nil {
+			if e := target.Close(); e != nil {
 				l.l.Error("write error, retrying",
 					zap.String("key", key),
-					zap.Error(err),
+					zap.Error(e),
 				)
+				if err == nil {
+					// do not mask a write error by the outcome of Close
+					err = e
+				}
 			}
 
 			return err
